@@ -66,6 +66,8 @@ def configs(tier):
 
 
 def run_behaviour(beh):
+    if isinstance(beh, str):      # behaviours travel as compact JSON text (memory: see main)
+        beh = json.loads(beh)
     return replay_history(beh, persist=False)
 
 
@@ -343,6 +345,15 @@ def main(tier):
         rnd = common.rng("c11")
         rnd.shuffle(behs)
         behs = behs[:60000]
+    cap = 60000 if tier == "quick" else 260000
+    if len(behs) > cap:
+        rnd = common.rng("c11cap")
+        rnd.shuffle(behs)
+        behs = behs[:cap]
+    # several hundred thousand nested dicts times 16 forked workers do not fit in memory: keep text only
+    behs = [json.dumps(b, separators=(",", ":")) for b in behs]
+    import gc
+    gc.collect()
     drvdir = common.scratch("c11drv_")
     os.environ["VERIF_REC_DIR"] = drvdir
     replayed = steps = 0
